@@ -191,6 +191,31 @@ class Checker(object):
                 got2 = model.get_value(f, model_completion=False)
             except Exception as e:
                 exc2 = e
+            # the other entry points must behave like get_value
+            for ep in ('get_py_value', 'get_values', 'get_py_values'):
+                r3 = e3 = None
+                try:
+                    if ep == 'get_py_value':
+                        r3 = model.get_py_value(f, model_completion=False)
+                    elif ep == 'get_values':
+                        r3 = model.get_values([f], model_completion=False)[f]
+                    else:
+                        r3 = model.get_py_values(
+                            [f], model_completion=False)[f]
+                except Exception as e:
+                    e3 = e
+                self.rep.count('nocompletion_entry_points')
+                if (e3 is None) != (exc2 is None):
+                    return 'entry-point:' + ep, (
+                        '%s(model_completion=False) %s although get_value %s'
+                        ' (%s with %s missing)' % (
+                            ep, 'raised %r' % e3 if e3 is not None else
+                            'returned %r' % (r3,),
+                            'raised %r' % exc2 if exc2 is not None else
+                            'returned %s' % got2, B.show(fb, 120), missing))
+                if e3 is None and ep == 'get_values' and r3 is not got2:
+                    return 'entry-point:' + ep, 'get_values %s vs %s' % (
+                        r3, got2)
             if exc2 is None:
                 if not got2.is_constant():
                     return 'nonconst', 'no-completion returned %s' % got2
